@@ -140,6 +140,19 @@ def python_part(run, i):
             return
         run.count("dbc_twins_equal")
         run.case(sig="dbc|%s|%s" % (shapes.shape_sig(sch, focus["name"]), perm))
+        # the `describe` back end (wire layout as text) is a function of the ids too
+        try:
+            from fcp.describe import describe
+            from fcp.specs.type import StructType
+
+            for name in sch.structs:
+                d0, d1 = describe(fcp0, StructType(name)), describe(fcp1, StructType(name))
+                if d0 != d1:
+                    run.violation("`describe` output of %s changes when field declarations are permuted (ids kept)" % name, dict(case, struct=name, described=d0[:800], twin_described=d1[:800]))
+                    return
+                run.count("describe_twins_equal")
+        except ImportError:
+            pass
         for name in sch.structs:
             for v, b0 in zip(vals[name], py0[name]):
                 try:
@@ -272,6 +285,8 @@ def cpp_part(run, bi, root):
         lines = []
         meta = []
         for name in sch0.structs:
+            if len({f["id"] for f in sch0.structs[name]}) != len(sch0.structs[name]):
+                continue  # fields sharing an id are ordered by declaration among themselves: not a twin case
             rv = run.rng_ns("cppvalues15", bi, name)
             for vi, v in enumerate(V.struct_values(rv, sch0, name, 4, {"finite": True})):
                 canon = ref.encode(sch0, name, v)
